@@ -496,3 +496,5 @@ def replay(case):
     how += f' [{method_for(n, M, case["kind"] != "comp")} request]'
     return (f'{case["kind"]}{how}: data={data_of(n)!r} Content-Length={CL} max_memfile_size={M}; stream answered the '
             f'reads {[r for r, _ in obs["calls"]]} with {answers} bytes: {v[1]}')
+
+MANIFEST['text'] += ' Also after a Content-Type change between two reads, with the body touched in the handler and read while the answer streams, and under one environment fault per execution (a read failing once at every position, a spool file that cannot be created).'
